@@ -155,6 +155,16 @@ impl IncRun {
         out
     }
 
+    /// every flow with its expansion history and emission ledger, in storage order (start epoch, id)
+    pub fn flows_ledger(&self) -> Value {
+        let mut fl = self.flows();
+        fl.sort_by_key(|f| (f.start_epoch, f.flow_id));
+        Value::Array(fl.iter().map(|f| json!({"id": f.flow_id, "asset": self.reward_name(&f.info), "base": s(f.base), "claimed": s(f.claimed),
+            "start": f.start_epoch, "end": f.end_epoch,
+            "hist": f.hist.iter().map(|(e, (a, en))| json!({"e": e, "amt": s(*a), "end": en})).collect::<Vec<_>>(),
+            "em": f.emitted.iter().map(|(e, x)| json!({"e": e, "x": s(*x)})).collect::<Vec<_>>()})).collect())
+    }
+
     pub fn rewards(&self, ui: usize) -> Value {
         match self.w.query::<RewardsResponse, _>(&self.incentive, &QueryMsg::Rewards { address: self.users[ui].to_string() }) {
             Ok(r) => {
@@ -264,7 +274,7 @@ impl IncRun {
             "close" => { dpre = self.w.digest(); self.w.exec(&u, &inc, &ExecuteMsg::ClosePosition { unbonding_duration: args["dur"].as_str().unwrap().parse().unwrap() }, &[]) }
             "withdraw" => { dpre = self.w.digest(); self.w.exec(&u, &inc, &ExecuteMsg::Withdraw {}, &[]) }
             "snapshot" => { dpre = self.w.digest(); self.w.exec(&u, &inc, &ExecuteMsg::TakeGlobalWeightSnapshot {}, &[]) }
-            "claim" => { pre = json!({"rewards": self.rewards(ui)}); dpre = self.w.digest(); self.w.exec(&u, &inc, &ExecuteMsg::Claim {}, &[]) }
+            "claim" => { pre = json!({"rewards": self.rewards(ui), "flows": self.flows_ledger()}); dpre = self.w.digest(); self.w.exec(&u, &inc, &ExecuteMsg::Claim {}, &[]) }
             "newepoch" => { dpre = self.w.digest(); self.w.advance(86_400_000_000_000, 1); self.w.exec(&u, &self.mock.clone(), &white_whale_std::fee_distributor::ExecuteMsg::NewEpoch {}, &[]) }
             "openflow" | "expandflow" => {
                 let asset = args["asset"].as_str().unwrap();
@@ -307,11 +317,7 @@ impl IncRun {
                 let a = if *c == self.rwd.to_string() { "rwd".to_string() } else if *c == self.rwd2.to_string() { "rwd2".to_string() } else { c.clone() };
                 json!({"a": a, "to": self.w.name_of(to), "x": s(*x)})
             }).collect();
-            let fl: Vec<Value> = self.flows().iter().map(|f| json!({"id": f.flow_id, "asset": self.reward_name(&f.info), "base": s(f.base),
-                "start": f.start_epoch, "end": f.end_epoch,
-                "hist": f.hist.iter().map(|(e, (a, en))| json!({"e": e, "amt": s(*a), "end": en})).collect::<Vec<_>>(),
-                "em": f.emitted.iter().map(|(e, x)| json!({"e": e, "x": s(*x)})).collect::<Vec<_>>()})).collect();
-            out = json!({"pays": pays, "flows": fl});
+            out = json!({"pays": pays, "flows": self.flows_ledger()});
         } else if op == "claim" {
             let e = rs.err();
             out = json!({"why": if e.contains("Invalid reward") { "invalid-reward" } else if e.contains("ivide") { "divide-by-zero" } else { "other" }});
